@@ -15,7 +15,7 @@ import (
 func init() {
 	Register(&Prop{ID: "C18",
 		Meta: Meta{Level: "exploration",
-			Rule: "real Client+Serve with a cooperative plugin; a drawn history of 0-6 steps from {dispense, call, brokered connection host->plugin, brokered connection plugin->host, stdio write, ping, streaming call} x protocol {net/rpc, gRPC, gRPC+mux} x TLS {none, AutoMTLS} x launch {command, custom runner, custom runner with address translation}; every configuration with the empty and the full history enumerated, seeded histories and schedule noise in the shutdown paths on top. Oracle after Kill returned and the plugin exited by itself: the file system holds no socket file or directory created by the host or the plugin process that was not there before (main listener, brokered listeners on both sides, the runner's plugin-dir*), and 10 simulated seconds later no goroutine labelled with the host process is inside a go-plugin function",
+			Rule:       "real Client+Serve with a cooperative plugin; a drawn history of 0-6 steps from {dispense, call, brokered connection host->plugin, brokered connection plugin->host, stdio write, ping, streaming call} x protocol {net/rpc, gRPC, gRPC+mux} x TLS {none, AutoMTLS} x launch {command, custom runner, custom runner with address translation}; every configuration with the empty and the full history enumerated, seeded histories and schedule noise in the shutdown paths on top. Oracle after Kill returned and the plugin exited by itself: the file system holds no socket file or directory created by the host or the plugin process that was not there before (main listener, brokered listeners on both sides, the runner's plugin-dir*), and 10 simulated seconds later no goroutine labelled with the host process is inside a go-plugin function",
 			Exhaustive: "protocol x TLS x launch x {empty history, full history}"},
 		Plan: func(tier string, seed uint64, stage int, prev []*h.Result) []*k.Spec {
 			if stage > 0 {
@@ -85,10 +85,10 @@ func runC18(r *h.Run) {
 	steps := []string{}
 	switch hist {
 	case "full":
-		steps = []string{"dispense", "call", "h2p", "p2h", "stdio", "ping", "stream", "h2p", "p2h"}
+		steps = []string{"dispense", "call", "h2p", "p2h", "stdio", "ping", "stream", "h2p", "p2h", "acceptonly", "acceptonly", "acceptonly", "hostacceptonly", "hostacceptonly"}
 	case "random":
-		all := []string{"dispense", "call", "h2p", "p2h", "stdio", "ping", "stream"}
-		n := w.Range("steps/n", 7)
+		all := []string{"dispense", "call", "h2p", "p2h", "stdio", "ping", "stream", "acceptonly", "hostacceptonly"}
+		n := w.Range("steps/n", 9)
 		for i := 0; i < n; i++ {
 			steps = append(steps, all[w.Range("steps/kind", len(all))])
 		}
@@ -111,6 +111,19 @@ func runC18(r *h.Run) {
 			i := id
 			h.HostAccept(r, s.cmd, i)
 			o = r.DoNoHang("PluginDial", 60*time.Second, ctx, func() (any, error) { return s.cmd.Do("dial", fmt.Sprint(i)) })
+		case "acceptonly":
+			// a brokered listener on the plugin side that stays open until shutdown
+			if _, ok := s.cmd.(*plugins.GRPCClient); ok && !c.Mux {
+				id++
+				i := id
+				o = r.DoNoHang("AcceptOnly", 60*time.Second, ctx, func() (any, error) { return s.cmd.Do("acceptonly", fmt.Sprint(i)) })
+			}
+		case "hostacceptonly":
+			if gc, ok := s.cmd.(*plugins.GRPCClient); ok && !c.Mux {
+				id++
+				i := id
+				o = r.DoNoHang("HostAcceptOnly", 60*time.Second, ctx, func() (any, error) { _, err := gc.Broker.Accept(i); return nil, err })
+			}
 		case "stdio":
 			o = r.DoNoHang("Stdio", 60*time.Second, ctx, func() (any, error) { return s.cmd.Do("stdout", "6869") })
 		case "ping":
